@@ -22,7 +22,7 @@ RULE = ("(operator among + - neg * / // % divmod, six comparisons, val(), abs) x
         "non-integer / negative operand (single operations), >= 2 completed fixed-point operations (compositions); distinct by (op, types, values, resolution, bitlength).")
 
 BIN = ["add", "sub", "mul", "truediv", "floordiv", "mod", "divmod", "lt", "le", "gt", "ge", "eq", "ne"]
-UN = ["neg", "abs", "val", "pos", "copy", "deepcopy"]
+UN = ["neg", "abs", "val", "pos", "copy", "deepcopy", "int_of", "round_of", "round0_of", "floor_of", "ceil_of", "trunc_of"]
 CMP = refsem.CMP
 TYPES = "FIBif"
 
@@ -45,6 +45,10 @@ def ref(name, ts, vals, r):
             return ("num", abs(x))
         if name in ("pos", "copy", "deepcopy"):
             return ("num", x)
+        if name in ("int_of", "round_of", "round0_of", "floor_of", "ceil_of", "trunc_of"):
+            # Python's numeric protocols on the represented number (refused today): round half to even, floor, ceil, toward zero
+            return ("num", Fraction({"int_of": math.trunc, "trunc_of": math.trunc, "floor_of": math.floor, "ceil_of": math.ceil,
+                                     "round_of": round, "round0_of": round}[name](x)))
         return ("float", float(x))
     a, b = number(ts[0], vals[0], r), number(ts[1], vals[1], r)
     ra, rb = a * S, b * S                  # representations (integers)
@@ -102,6 +106,8 @@ def in_core(name, ts, vals, r, b):
         return ts == "Fi" and 0 <= int(vals[1]) <= 4 and abs(x) ** max(1, int(vals[1])) < lim * S ** max(0, int(vals[1]) - 1) // 4
     if "B" in ts and name not in ("add", "sub", "mul"):
         return False
+    if len(ts) < 2:
+        return False          # the numeric protocols (int, round, floor ...): no promise that they are supported
     x, y = number(ts[0], vals[0], r) * S, number(ts[1], vals[1], r) * S
     if name in ("add", "sub"):
         return True
